@@ -1,5 +1,5 @@
 """Per-property pipelines."""
-import os, json, subprocess, random
+import os, json, subprocess, random, copy
 from orchestrator import *
 
 PROPS = {}
@@ -49,9 +49,11 @@ def model_stage(ctx, pid):
         consts = dict(Record="TRUE", KidVals="{0, 1}", **kc)
         cases = []
         if okind == "sign1" or not ctx.quick():
-            cases += gen(ctx, "Gen_Model", cfgtext(invariants=["Emit"], constants=dict(MaxHist=2, **consts)), timeout=1200, heap="8g")
+            # every behaviour of length 2 from the start, from a signed message, and from a signed message that was sent and parsed
+            for pfx, plen in ((0, 0), (1, 1), (2, 3)):
+                cases += gen(ctx, "Gen_Model", cfgtext(spec="GSpec", invariants=["Emit"], constants=dict(MaxHist=plen + 2, PrefixId=pfx, **consts)), timeout=1200, heap="8g")
         nk = n if okind == "sign1" else n // 2
-        cases += gen(ctx, "Gen_Model", cfgtext(invariants=["Emit"], constants=dict(MaxHist=depth, **consts)), simulate=max(1, nk // 50), depth=depth + 2, seed=ctx.seed, timeout=1200, heap="8g")
+        cases += gen(ctx, "Gen_Model", cfgtext(invariants=["Emit"], constants=dict(MaxHist=depth, PrefixId=0, **consts)), simulate=max(1, nk // 50), depth=depth + 2, seed=ctx.seed, timeout=1200, heap="8g")
         ev = harness(ctx, ["exec", "memflow"], cases)
         # (c) trace validation
         jc = "".join("CONSTANT %s = %s\n" % kv for kv in dict(MaxHist=0, Record="FALSE", KidVals="{0, 1}", **kc).items())
@@ -88,10 +90,13 @@ def cs_stage(ctx, pid, light=False):
                                extra="VIEW View\n"), timeout=1800, heap="8g")
         mc(ctx, "CsModel", cfgtext(invariants=CS_INVS, props=CS_PROPS, constants=dict(MaxHist=0, Record="FALSE", Scope='"all"', MaxLevel=5 if ctx.quick() else 6, **one),
                                extra="VIEW View\nCONSTRAINT LevelBound\n"), timeout=3000, heap="8g")
-    n, depth = (1200, 10) if ctx.quick() else (20000, 14)
+    n, depth = (1200, 10) if ctx.quick() else ((20000, 14) if pid == "C10" else (4000, 14))
     consts = dict(Record="TRUE", Scope='"all"', MaxLevel=0, **CS_CONSTS)
-    cases = [] if light else gen(ctx, "Gen_Cs", cfgtext(invariants=["Emit"], constants=dict(MaxHist=2, **consts)), timeout=1200, heap="8g")
-    cases += gen(ctx, "Gen_Cs", cfgtext(invariants=["Emit"], constants=dict(MaxHist=depth, **consts)), simulate=max(1, n // 50), depth=depth + 2, seed=ctx.seed, timeout=1200, heap="8g")
+    cases = []
+    if not light:
+        for pfx, plen in ((0, 0), (1, 1), (2, 4), (3, 2)):
+            cases += gen(ctx, "Gen_Cs", cfgtext(spec="GSpec", invariants=["Emit"], constants=dict(MaxHist=plen + 2 if (pfx == 0 or not ctx.quick()) else plen + 1, PrefixId=pfx, **consts)), timeout=1200, heap="8g")
+    cases += gen(ctx, "Gen_Cs", cfgtext(invariants=["Emit"], constants=dict(MaxHist=depth, PrefixId=0, **consts)), simulate=max(1, n // 50), depth=depth + 2, seed=ctx.seed, timeout=1200, heap="8g")
     events = harness(ctx, ["exec", "memflow"], cases)
     jc = "".join("CONSTANT %s = %s\n" % kv for kv in dict(MaxHist=0, Record="FALSE", Scope='"all"', MaxLevel=0, **CS_CONSTS).items())
     rej = judge(ctx, "Trace_Cs", events, per_shard=300, extra_cfg=jc)
@@ -198,6 +203,7 @@ def c08(ctx):
     henv = [c for c in gen(ctx, "Gen_C12", cfgtext(invariants=["Emit"], constants=dict(Spellings=tlaset(["int64"]))), timeout=1200, heap="8g") if c["side"] == "producer"]
     if ctx.quick():
         henv = [c for c in henv if c.get("rawP") or c.get("rawU") or c["hp"]["alg"] == -16][:4000]
+    henv = henv + reentrant(henv[::4])
     sev = harness(ctx, ["exec", "memflow"], seq + henv)
     srej = judge(ctx, "Trace_C08Seq", sev)
     base = len(events)
@@ -228,11 +234,11 @@ def wire_cases(ctx, mode, algs, depth, bases, inv=("Emit",), mutdepth=1):
 def wire_respell_cases(ctx):
     cases = []
     if ctx.quick():
-        cases += wire_cases(ctx, "respell", [7], 1, range(1, 18), inv=("StaysConforming", "SizedBaseOK", "Emit"))
+        cases += wire_cases(ctx, "respell", [7], 1, list(range(1, 18)) + [20, 21], inv=("StaysConforming", "SizedBaseOK", "Emit"))
         cases += wire_cases(ctx, "respell", [6, 36], 1, [1, 6], inv=("StaysConforming", "Emit"))
         cases += wire_cases(ctx, "respell", [7], 2, [1, 4, 5, 7, 8, 17], inv=("StaysConforming", "Emit"))
     else:
-        cases += wire_cases(ctx, "respell", [6, 7, 34, 35, 36, 37, 38], 1, range(1, 18), inv=("StaysConforming", "SizedBaseOK", "Emit"))
+        cases += wire_cases(ctx, "respell", [6, 7, 34, 35, 36, 37, 38], 1, list(range(1, 18)) + [20, 21], inv=("StaysConforming", "SizedBaseOK", "Emit"))
         cases += wire_cases(ctx, "respell", [7], 2, list(range(1, 11)) + [15, 16, 17], inv=("StaysConforming", "Emit"))
     seen, out = set(), []
     for c in cases:
@@ -277,14 +283,17 @@ def c02(ctx):
     # ... and memory side (constructed messages, size classes up to 65536 bytes)
     sizes = [23, 24, 255, 256, 32767, 32768, 65535, 65536] if not ctx.quick() else [23, 255, 256, 32768, 65535, 65536]
     mem = gen(ctx, "Gen_C02Mem", cfgtext(invariants=["Emit"], constants=dict(Sizes=tlanums(sizes))), timeout=1200, heap="8g")
+    mem = mem + reentrant([c for c in mem if c["pn"] <= 256 and c["en"] <= 256])
     mev = harness(ctx, ["exec", "memflow"], mem)
     mrej = judge(ctx, "Trace_C02Mem", mev, per_shard=40, heap="6g")
     base = len(events)
     events = events + mev
     for i, r in mrej.items():
         rejects[base + i] = r
+    # ... and sequences: behaviours of the life-cycle model (sign / verify again after caller edits), every key input compared with the structure
+    events, rejects = with_model(ctx, "C02", events, rejects)
     return report(ctx, events, rejects, nontrivial=lambda e: len(e.get("spy", [])) > 0 or "steps" in e,
-                  key=lambda e: json.dumps([e["kind"], e["pn"], e["en"], e["steps"][0]]) if "steps" in e else (e["kind"], tuple(e["wire"]), tuple(e["ext"])),
+                  key=lambda e: json.dumps(e["acts"]) if "acts" in e else json.dumps([e["kind"], e["pn"], e["en"], e["steps"][0], e.get("reenter")]) if "steps" in e else (e["kind"], tuple(e["wire"]), tuple(e["ext"])),
                   rule=WIRE_RULE + "Memory side: TLC enumerates constructed Sign1 / untagged / COSE_Sign (2 signers) / Signature messages x header shapes (alg omitted, "
                        "typed variants, protected maps of 23/24/255/256 bytes) x payload and external-data lengths up to 65536; recording signers and verifiers "
                        "capture their input at signing and after a wire round trip; TLC compares each with the Sig_structure built from the object's state. "
@@ -296,11 +305,12 @@ def c02(ctx):
 def c03(ctx):
     cases = []
     if ctx.quick():
-        cases += wire_cases(ctx, "mut", [7], 0, range(1, 9))
+        cases += wire_cases(ctx, "mut", [7], 0, list(range(1, 9)) + [13, 14, 18])      # 13/14/18: payload / external data of 255, 256 bytes
         cases += wire_cases(ctx, "mut", [6, 36], 0, [1, 6])
         cases += wire_cases(ctx, "mut", [7], 1, [1])
     else:
         cases += wire_cases(ctx, "mut", [6, 7, 34, 35, 36], 0, range(1, 11))
+        cases += wire_cases(ctx, "mut", [7, 36], 0, [13, 14, 18, 19])
         cases += wire_cases(ctx, "mut", [7], 1, [1, 4, 5, 6, 8])
         cases += wire_cases(ctx, "mut", [7], 0, [1], mutdepth=2)           # pairs of edits: about 0.6 M cases per base (four bases exhausted the sandbox's memory)
     seen, out = set(), []
@@ -340,7 +350,7 @@ def c04(ctx):
     events, rejects = with_model(ctx, "C04", events, rejects)
     return report(ctx, events, rejects,
                   nontrivial=lambda e: True,
-                  key=lambda e: json.dumps(e["acts"]) if "acts" in e else json.dumps([e["struct"], e["flow"], e["P"], e["alg"], e["steps"][-1].get("extnil"), e["ext"]]),
+                  key=lambda e: json.dumps(e["acts"]) if "acts" in e else json.dumps([e["struct"], e["flow"], e.get("pre"), e["P"], e["alg"], e["steps"][-1].get("extnil"), e["ext"]]),
                   rule="TLC enumerates the algorithm grid: structure (Sign1, untagged, Signature, Countersignature, Sign1/Sign1Untagged helpers) x flow "
                        "(sign+marshal, verify constructed, verify decoded) x header alg (absent, 10 integers incl. int64 min/max under 8 Go value types, "
                        "text, bstr, array, nil, uint64 2^64-7) x Go spelling of the label x signer/verifier algorithm (-7, -36, private-use -65537 and 5, "
@@ -430,18 +440,38 @@ def c11(ctx):
 def c10(ctx):
     mc(ctx, "Vectors", cfgtext(), workers=1, timeout=300)      # CountersignStructure pinned to the RFC 9338 to-be-signed literals
     cases = gen(ctx, "Gen_C10", cfgtext(invariants=["Emit"], constants=dict(Deep="TRUE", DeepWidths="{0, 4}" if ctx.quick() else "{0, 1, 2, 4, 8}")), timeout=3000, heap="8g")
+    cases = cases + reentrant([c for c in cases if c["flow"] == "bind"])     # (the list flow has keys named k1..kn; all others one key)
     events = harness(ctx, ["exec", "memflow"], cases)
     rejects = judge(ctx, "Trace_C10", events)
     events, rejects = with_cs_model(ctx, "C10", events, rejects)
     return report(ctx, events, rejects,
                   nontrivial=lambda e: True,
                   key=lambda e: json.dumps(e["acts"]) if "acts" in e else json.dumps([e["flow"], e.get("pk"), e.get("form"), e.get("abbr"), e.get("dec"), e["ext"], e.get("mu"), e.get("why"), e.get("r"),
-                                            e["steps"][-1].get("extnil")]),
+                                            e["steps"][-1].get("extnil"), e.get("reenter"), e.get("label"), e.get("n")]),
                   rule="TLC enumerates countersignature programs: 4 parent kinds x pointer/value x full/abbreviated x constructed/decoded parent (decoded from a "
                        "wire image with a non-minimal protected length prefix) x external data (nil/empty/non-empty) x one mutation of the parent (none, payload, "
                        "signature, protected bucket, unprotected bucket, detaching); unsigned / payload-less parents; four replay attempts across kinds and "
                        "forms; symbolic signer/verifier record their input; TLC judges inputs against CountersignStructure (RFC 9338) and the verdicts",
                   exhaustive=True)
+
+
+def reentrant(cases):
+    """the same programs with keys that use the library themselves (every signing / verifying entry point, on values of their own)
+    before they look at their input: whatever the library hands to a key must not be disturbed by other calls"""
+    out = []
+    for c in cases:
+        d = copy.deepcopy(c)
+        hit = False
+        for st in d.get("steps", []):
+            for k in ("signers", "verifiers"):
+                for s in st.get(k, []) or []:
+                    if s.get("kind") == "sym" and s.get("fault") == "":
+                        s["fault"] = "reenter"
+                        hit = True
+        if hit:
+            d["reenter"] = True
+            out.append(d)
+    return out
 
 
 def sessions(ctx, cases, size=150):
@@ -472,6 +502,12 @@ def c12(ctx):
     cons.sort(key=lambda c: (json.dumps(c["P"]), c["n"], len(c["U"]), json.dumps(c["U"])))
     for order in (cons, cons[::-1]):
         events.extend(sessions(ctx, order))
+    # the producer must not carry anything over from one call to the next either (refused calls followed by accepted ones and vice versa)
+    prod = [c for c in cases if c["side"] == "producer"]
+    if ctx.quick():
+        prod = prod[::3]
+    for order in (prod, prod[::-1]):
+        events.extend(sessions(ctx, order, size=60))
     rejects = judge(ctx, "Trace_C12", events)
     return report(ctx, events, rejects,
                   nontrivial=lambda e: e["obs"][0]["res"] == "ok" if e["side"] == "producer" else e["obs"][2]["res"] == "ok",
@@ -544,11 +580,16 @@ def c17(ctx):
     if ctx.quick():
         dig = [c for c in dig if c["msglen"] in (0, 56, 1000) or c["alg"] in (-7, -37)]
     # the factory matrix is run twice in one process, serially: a verdict must not depend on what was constructed before
-    events = harness(ctx, ["exec", "factory"], fac + list(reversed(fac)) + fac, env=dict(VERIF_SERIAL="1")) + harness(ctx, ["exec", "digest"], dig)
+    facseq = fac + list(reversed(fac)) + fac
+    fev = harness(ctx, ["exec", "factory"], facseq, env=dict(VERIF_SERIAL="1"))
+    ctx.packs = [dict(session=facseq, op="factory")]          # a factory verdict is replayed with everything that was constructed before it
+    for i, e in enumerate(fev):
+        e["sess"] = [0, i]
+    events = fev + harness(ctx, ["exec", "digest"], dig)
     rejects = judge(ctx, "Trace_C17", events)
     return report(ctx, events, rejects,
                   nontrivial=lambda e: True,
-                  key=lambda e: json.dumps({k: v for k, v in e.items() if k not in ("res", "reported", "nilresult", "sign", "verify", "stdv", "panic")}, sort_keys=True),
+                  key=lambda e: json.dumps({k: v for k, v in e.items() if k not in ("res", "reported", "nilresult", "sign", "verify", "stdv", "panic", "sess")}, sort_keys=True),
                   rule="(factory matrix executed three times in one process, forwards, backwards, forwards, so that verdicts cannot depend on earlier calls) TLC enumerates the full factory matrix (7 built-in + 3 RS* + reserved + unknown + private-use + hash algorithm ids x 14 signer key kinds / 15 "
                        "public-key kinds: RSA 1024/2047/2048/3072, ECDSA P-224/256/384/521, off-curve and infinity points, value-typed keys, Ed25519, opaque and "
                        "foreign crypto.Signers) and the digest-equivalence space (6 algorithms x message lengths x Sign/SignDigest x Verify/VerifyDigest x every "
@@ -770,6 +811,14 @@ def replay(ctx, path):
         else:
             module, kc = "Trace_Cs", dict(MaxHist=0, Record="FALSE", Scope='"all"', MaxLevel=0, **CS_CONSTS)
         extra = "".join("CONSTANT %s = %s\n" % kv for kv in kc.items())
+    if "session" in doc and doc.get("session_op") == "factory":
+        events = harness(ctx, ["exec", "factory"], doc["session"], env=dict(VERIF_SERIAL="1"))[-1:]
+        rejects = judge(ctx, module, events, extra_cfg=extra)
+        if rejects:
+            print("VIOLATION property=%s replay=%s reason=%s" % (pid, path, ",".join(rejects[0])))
+            return 1
+        print("replay: not reproduced on the current tree (%s)" % path)
+        return 0
     if "session" in doc:
         events = harness(ctx, ["exec", "memflow-session"], [dict(session=doc["session"])])[0]["events"][-1:]
         rejects = judge(ctx, module, events, extra_cfg=extra)
